@@ -102,6 +102,28 @@ def first_doc_difference(a, b, path=()):
     return path, a, b
 
 
+def all_doc_differences(a, b, path=()):
+    """every leaf position where two documents differ, member names folded the way encoding/json matches
+    them (case-insensitively), an absent member and an explicit null not distinguished"""
+    if isinstance(a, dict) and isinstance(b, dict):
+        fa, fb = {k.lower(): v for k, v in a.items()}, {k.lower(): v for k, v in b.items()}
+        out = []
+        for k in list(fa) + [k for k in fb if k not in fa]:
+            x, y = fa.get(k), fb.get(k)
+            if x is None and y is None:
+                continue
+            out += all_doc_differences(x, y, path + (k,))
+        return out
+    if isinstance(a, list) and isinstance(b, list) and len(a) == len(b):
+        out = []
+        for i, (x, y) in enumerate(zip(a, b)):
+            out += all_doc_differences(x, y, path + (i,))
+        return out
+    if srcgen.json_same(a, b) and srcgen.dumps(a) == srcgen.dumps(b):
+        return []
+    return [(path, a, b)]
+
+
 def keysets_differ(a, b):
     """two encodings contain, at corresponding positions, objects of the same size with different
     key sets (what the generated map comparison cannot see)"""
@@ -143,10 +165,10 @@ def classify_enc_eq(job, result):
                 continue
             a, b = docs[i % n], docs[j % n]
             try:
-                d = first_doc_difference(a, b)
+                ds = all_doc_differences(a, b)
             except Exception:
-                d = None
-            if d is None:
+                ds = []
+            if not ds:
                 # the same document decoded twice
                 if re.search(r"[+-]\d\d:(?!00)\d\d\"", srcgen.dumps(a)):
                     causes.add("datetime-offset-not-whole-hour")
@@ -154,12 +176,13 @@ def classify_enc_eq(job, result):
                     causes.add("datetime")
                 else:
                     causes.add("same-document")
-            elif isinstance(d[1], str) and isinstance(d[2], str) and TS.match(d[1]) and TS.match(d[2]):
-                causes.add("datetime-zone-notation")
-            elif isinstance(d[1], (int, srcgen.Decimal)) and isinstance(d[2], (int, srcgen.Decimal)):
-                causes.add("number-literal-selects-other-union-branch")
-            else:
-                causes.add("other")
+            for d in ds:
+                if isinstance(d[1], str) and isinstance(d[2], str) and TS.match(d[1]) and TS.match(d[2]):
+                    causes.add("datetime-zone-notation")
+                elif isinstance(d[1], (int, srcgen.Decimal)) and isinstance(d[2], (int, srcgen.Decimal)):
+                    causes.add("number-literal-selects-other-union-branch")
+                else:
+                    causes.add("other")
     return "+".join(sorted(causes)) or "other"
 
 
